@@ -189,66 +189,60 @@ def decide_close(ob, name, p, code, ref, tol, *, domain=None, oracle=None, make_
     if ob_over or (any_bad and BUDGET > 0 and _time.time() - _T0[0] > BUDGET / 3):
         return res(ob, name, 'inconclusive', qs, 'solver=%s; group time budget exhausted (or a violation is already confirmed in this '
                    'group), witness search skipped' % v.status, paths=paths)
-    # witness search
+    # witness search (never used to conclude 'holds'). Order: cheap replays first - the solver's model, the check's stress points, the
+    # oracle's own stress set ({}) - then time-boxed numeric sampling of the stated box ranked by the residual under the true functions.
     wit = None
-    if domain is not None and oracle is not None:
-        vars_ = solve.free_vars([cz, rz] + list(p.assumptions) + list(p.pc))
-        dom = {k: domain[k] for k in vars_ if k in domain}
-        missing = [k for k in vars_ if k not in domain]
-        if not missing:
-            pts = list(extra_points)
-            if v.status == 'sat' and v.model is not None:
-                try:
-                    pts.insert(0, solve.model_env(v.model, vars_))
-                except Exception:  # noqa
-                    pass
-            # (axiom instances in extra_conds are not numeric filters: sin^2+cos^2 == 1 is not exact in floating evaluation)
-            envs = sample_envs(vars_, dom, list(p.assumptions) + list(p.pc), n=n_samples,
-                               seed=seed, extra_points=pts)
-            scored = []
-            for e in envs:
-                try:
-                    d = abs(solve.neval(cz, e, {}) - solve.neval(rz, e, {}))
-                except (solve.NumEvalError, ZeroDivisionError, ValueError):
-                    continue
-                scored.append((d, e))
-            if not scored and pts:
-                # the terms cannot be evaluated numerically (callee summaries): replay the solver's model / stress points as they are
-                scored = [(mpmath.mpf(1), e) for e in pts[:3] if all(k in e for k in vars_)]
-            scored.sort(key=lambda t: -t[0])
-            thr = mpmath.mpf(Fraction(tol).numerator) / mpmath.mpf(Fraction(tol).denominator)
-            for d, e in scored[:6]:
-                if d <= thr and tol != 0:
-                    break
-                if d == 0:
-                    break
-                args = make_args(e) if make_args else e
-                viol, msg, path = replay.confirm(pid, ob, key or ob, oracle, args)
-                if viol is True:
-                    _CONFIRMED[(pid, key or ob)] = path
-                    return res(ob, name, 'violated', qs, 'model residual %.3e; %s' % (float(d), msg), key=key or ob,
-                               witness=args, replay_path=path, paths=paths)
-                wit = (float(d), msg)
-    if wit is None and oracle is not None and (domain is None or any(k not in domain for k in solve.free_vars([cz, rz] + list(p.assumptions) + list(p.pc)))):
-        # no numeric domain for this obligation (callee summaries, shared symbolic constants): replay the solver's model and the
-        # stress points as they are; the oracle decides
-        vars_ = solve.free_vars([cz, rz] + list(p.assumptions) + list(p.pc))
-        pts = []
-        if v.status == 'sat' and v.model is not None:
+    if oracle is None:
+        return res(ob, name, 'inconclusive', qs, '%s solver=%s; no oracle' % (detail, v.status), paths=paths)
+    vars_ = solve.free_vars([cz, rz] + list(p.assumptions) + list(p.pc))
+    t_ws = _time.time()
+
+    def _replay(e, how):
+        nonlocal wit
+        args = make_args(e) if make_args else e
+        viol, msg, path = replay.confirm(pid, ob, key or ob, oracle, args)
+        if viol is True:
+            _CONFIRMED[(pid, key or ob)] = path
+            return res(ob, name, 'violated', qs, '%s; %s' % (how, msg), key=key or ob, witness=args, replay_path=path, paths=paths)
+        wit = (how, msg)
+        return None
+    first = []
+    if v.status == 'sat' and v.model is not None:
+        try:
+            first.append(('solver model replayed', solve.model_env(v.model, vars_)))
+        except Exception:  # noqa
+            pass
+    first += [('stress point replayed', dict(e)) for e in list(extra_points)[:2]]
+    first.append(('oracle stress set replayed', {}))
+    for how, e in first[:4]:
+        r = _replay(e, how)
+        if r is not None:
+            return r
+        if over_budget():
+            break
+    if domain is not None and not over_budget() and all(k in domain for k in vars_):
+        dom = {k: domain[k] for k in vars_}
+        # (axiom instances in extra_conds are not numeric filters: sin^2+cos^2 == 1 is not exact in floating evaluation)
+        envs = sample_envs(vars_, dom, list(p.assumptions) + list(p.pc), n=n_samples, seed=seed, extra_points=list(extra_points))
+        scored = []
+        for e in envs:
+            if _time.time() - t_ws > 45 or over_budget():      # numeric evaluation of large terms is slow: time-boxed
+                break
             try:
-                pts.append(solve.model_env(v.model, vars_))
-            except Exception:  # noqa
-                pass
-        pts += list(extra_points)
-        for e in pts[:3]:
-            args = make_args(e) if make_args else e
-            viol, msg, path = replay.confirm(pid, ob, key or ob, oracle, args)
-            if viol is True:
-                _CONFIRMED[(pid, key or ob)] = path
-                return res(ob, name, 'violated', qs, 'solver model replayed; %s' % msg, key=key or ob, witness=args, replay_path=path, paths=paths)
-            wit = (1.0, msg)
+                d = abs(solve.neval(cz, e, {}) - solve.neval(rz, e, {}))
+            except (solve.NumEvalError, ZeroDivisionError, ValueError):
+                continue
+            scored.append((d, e))
+        scored.sort(key=lambda t: -t[0])
+        thr = mpmath.mpf(Fraction(tol).numerator) / mpmath.mpf(Fraction(tol).denominator)
+        for d, e in scored[:4]:
+            if (d <= thr and tol != 0) or d == 0 or over_budget():
+                break
+            r = _replay(e, 'model residual %.3e' % float(d))
+            if r is not None:
+                return r
     return res(ob, name, 'inconclusive', qs,
-               '%s solver=%s; no replayed witness%s' % (detail, v.status, (' (best residual %.3e: %s)' % wit) if wit else ''),
+               '%s solver=%s; no replayed witness%s' % (detail, v.status, (' (last tried: %s: %s)' % wit) if wit else ''),
                paths=paths)
 
 
